@@ -33,6 +33,7 @@ structure TrackM {ρ : Type} (o : Ops ρ) (M : Int) (T : ρ → List Sample → 
   remSeekLt : ∀ r t x, ((∃ L, T r L) ∨ B r) → o.atT r = some x → x < t → (o.seek t r).2 = true →
     rem (o.seek t r).1 < rem r
   remAdjust : ∀ r v, rem (o.adjust v r) = rem r
+  atTAdjust : ∀ r v, o.atT (o.adjust v r) = o.atT r
 
 /-- what the first `Next` of a fresh state gives -/
 structure TrackInit {ρ : Type} (o : Ops ρ) (T : ρ → List Sample → Prop) (B : ρ → Prop) (s0 : ρ)
@@ -318,6 +319,7 @@ theorem bnd_trackM (h : ListLike o V abs) :
         have := dropLt_length_le t l
         simp only [List.length_cons]; omega
   remAdjust := fun r v => rfl
+  atTAdjust := fun r v => rfl
 
 /-- the first `Next` of a bounded iterator over a fresh list-like one -/
 theorem bNext_fresh (h : ListLike o V abs) {s0 : σ} {L : List Sample} (hi : InitNext o V abs s0 L)
@@ -674,6 +676,200 @@ theorem nodeChoose_track (ha : TrackM oa M Ta Ba ra) (hb : TrackM ob M Tb Bb rb)
       simp only [hav, hbv, Bool.not_false, if_true, Bool.false_eq_true, if_false]
       refine ⟨fun hne => absurd (by simp [pm2]) hne, fun _ => Or.inl ?_⟩
       exact ⟨(by first | rfl | trivial), hnb, Or.inr (Or.inr ⟨rfl, (by first | rfl | assumption), hda⟩), Or.inr (Or.inr ⟨rfl, (by first | rfl | assumption), hdb⟩)⟩
+
+/-- `nodeChoose` never touches the sides -/
+theorem nodeChoose_fields (s : Node α β) :
+    (nodeChoose oa ob s).1.a = s.a ∧ (nodeChoose oa ob s).1.b = s.b ∧
+    (nodeChoose oa ob s).1.aval = s.aval ∧ (nodeChoose oa ob s).1.bval = s.bval := by
+  unfold nodeChoose
+  cases s.aval <;> cases s.bval <;> simp only [Bool.not_true, Bool.not_false, Bool.false_eq_true, if_true, if_false]
+  · simp
+  · split <;> simp
+  · split <;> simp
+  · split
+    · split <;> simp
+    · simp
+
+theorem childSt_adjust {γ : Type} {o : Ops γ} {T : γ → List Sample → Prop} {B : γ → Prop} {r : γ → Nat}
+    (h : TrackM o M T B r) (v : Int) {c : γ} {av : Bool} {l : List Sample} (hc : ChildSt o T B c av l) :
+    ChildSt o T B (if av then o.adjust v c else c) av l := by
+  rcases hc with ⟨hl, hav, hT⟩ | ⟨hl, hav, hB⟩ | ⟨hl, hav, hb⟩
+  · rw [hav]; exact Or.inl ⟨hl, rfl, h.tAdjust _ _ v hT⟩
+  · rw [hav]; exact Or.inr (Or.inl ⟨hl, rfl, h.bAdjust _ v hB⟩)
+  · rw [hav]; exact Or.inr (Or.inr ⟨hl, rfl, hb⟩)
+
+/-- `adjustAtValue` keeps what the node follows -/
+theorem nodeAdjust_track (ha : TrackM oa M Ta Ba ra) (hb : TrackM ob M Tb Bb rb) (v : Int) (s : Node α β) :
+    (∀ la lb, NodeSt oa ob Ta Ba Tb Bb s la lb → NodeSt oa ob Ta Ba Tb Bb (nodeAdjust oa ob v s) la lb) ∧
+    (∀ L, nodeT oa ob Ta Ba Tb Bb s L → nodeT oa ob Ta Ba Tb Bb (nodeAdjust oa ob v s) L) ∧
+    (nodeB oa ob Ta Ba Tb Bb s → nodeB oa ob Ta Ba Tb Bb (nodeAdjust oa ob v s)) ∧
+    nodeRem ra rb (nodeAdjust oa ob v s) = nodeRem ra rb s := by
+  obtain ⟨p1, p2, p3, p4, p5, p6⟩ := nodeAdjust_proj (oa := oa) (ob := ob) v s
+  obtain ⟨q1, q2, q3, q4⟩ := nodeAdjust_fields (oa := oa) (ob := ob) v s
+  have hst : ∀ la lb, NodeSt oa ob Ta Ba Tb Bb s la lb →
+      NodeSt oa ob Ta Ba Tb Bb (nodeAdjust oa ob v s) la lb := by
+    intro la lb ⟨hnb, hca, hcb⟩
+    refine ⟨by rw [q4]; exact hnb, ?_, ?_⟩
+    · rw [p5, p1]; exact childSt_adjust ha v hca
+    · rw [p6, p2]; exact childSt_adjust hb v hcb
+  refine ⟨hst, ?_, ?_, ?_⟩
+  · rintro L ⟨la, lb, hns, hsame, hpen, cur, hcur, hct, hL⟩
+    refine ⟨la, lb, hst la lb hns, by rw [p4, p3]; exact hsame, by rw [p4, q2, q3]; exact hpen,
+      cur, by rw [p4]; exact hcur, by rw [q1]; exact hct, by rw [q1, q2, q3]; exact hL⟩
+  · rintro ⟨hns, hsame, hch⟩
+    refine ⟨hst _ _ hns, by rw [p4, p3]; exact hsame, ?_⟩
+    rw [p4, p1, p2, p5, p6, q1, q2, q3]
+    cases hl : s.lastIsA with
+    | true =>
+      rw [hl] at hch
+      simp only [if_true] at hch ⊢
+      obtain ⟨h1, h2, h3, h4⟩ := hch
+      simp only [h1, if_true]
+      exact ⟨trivial, ha.bAdjust _ v h2, by rw [ha.atTAdjust]; exact h3, h4⟩
+    | false =>
+      rw [hl] at hch
+      simp only [Bool.false_eq_true, if_false] at hch ⊢
+      obtain ⟨h1, h2, h3, h4⟩ := hch
+      simp only [h1, if_true]
+      exact ⟨trivial, hb.bAdjust _ v h2, by rw [hb.atTAdjust]; exact h3, h4⟩
+  · unfold nodeRem remOf
+    rw [p1, p2, p5, p6]
+    cases s.aval <;> cases s.bval <;> simp [ha.remAdjust, hb.remAdjust]
+
+theorem remOf_stepA_le (ha : TrackM oa M Ta Ba ra) {s : Node α β} {la : List Sample}
+    (hc : ChildSt oa Ta Ba s.a s.aval la) :
+    remOf ra (stepA oa s).1 (stepA oa s).2 ≤ remOf ra s.a s.aval := by
+  unfold stepA remOf
+  cases hav : s.aval with
+  | false => simp
+  | true =>
+    rw [hav] at hc
+    simp only [if_true]
+    cases hok : (oa.seek (s.lastT + 1 + s.penA) s.a).2 with
+    | false => simp
+    | true => simpa using ha.remSeekLe _ _ hc.valid
+
+theorem remOf_stepB_le (hb : TrackM ob M Tb Bb rb) {s : Node α β} {lb : List Sample}
+    (hc : ChildSt ob Tb Bb s.b s.bval lb) :
+    remOf rb (stepB ob s).1 (stepB ob s).2 ≤ remOf rb s.b s.bval := by
+  unfold stepB remOf
+  cases hbv : s.bval with
+  | false => simp
+  | true =>
+    rw [hbv] at hc
+    simp only [if_true]
+    cases hok : (ob.seek (s.lastT + 1 + s.penB) s.b).2 with
+    | false => simp
+    | true => simpa using hb.remSeekLe _ _ hc.valid
+
+theorem remOf_stepA_lt (ha : TrackM oa M Ta Ba ra) {s : Node α β} {la : List Sample}
+    (hc : ChildSt oa Ta Ba s.a s.aval la) (hav : s.aval = true) (hat : oa.atT s.a = some s.lastT)
+    (hp : s.penA = 0) : remOf ra (stepA oa s).1 (stepA oa s).2 < remOf ra s.a s.aval := by
+  unfold stepA remOf
+  rw [hav] at hc
+  simp only [hav, if_true]
+  have hpos := ha.remPos _ hc.valid
+  cases hok : (oa.seek (s.lastT + 1 + s.penA) s.a).2 with
+  | false => simp; omega
+  | true => simpa using ha.remSeekLt _ _ _ hc.valid hat (by omega) hok
+
+theorem remOf_stepB_lt (hb : TrackM ob M Tb Bb rb) {s : Node α β} {lb : List Sample}
+    (hc : ChildSt ob Tb Bb s.b s.bval lb) (hbv : s.bval = true) (hat : ob.atT s.b = some s.lastT)
+    (hp : s.penB = 0) : remOf rb (stepB ob s).1 (stepB ob s).2 < remOf rb s.b s.bval := by
+  unfold stepB remOf
+  rw [hbv] at hc
+  simp only [hbv, if_true]
+  have hpos := hb.remPos _ hc.valid
+  cases hok : (ob.seek (s.lastT + 1 + s.penB) s.b).2 with
+  | false => simp; omega
+  | true => simpa using hb.remSeekLt _ _ _ hc.valid hat (by omega) hok
+
+theorem nodeRem_step (s : Node α β) :
+    nodeRem ra rb (nodeStep oa ob s).1 =
+      remOf ra (stepA oa s).1 (stepA oa s).2 + remOf rb (stepB ob s).1 (stepB ob s).2 := by
+  unfold nodeStep nodeRem
+  obtain ⟨h1, h2, h3, h4⟩ := nodeChoose_fields (oa := oa) (ob := ob)
+    { s with a := (stepA oa s).1, b := (stepB ob s).1, aval := (stepA oa s).2, bval := (stepB ob s).2 }
+  rw [h1, h2, h3, h4]
+
+/-- the body of `Next`, in terms of what the sides follow -/
+theorem nodeStep_track (ha : TrackM oa M Ta Ba ra) (hb : TrackM ob M Tb Bb rb) (s : Node α β)
+    {la lb : List Sample} (hst : NodeSt oa ob Ta Ba Tb Bb s la lb) :
+    (pm2 s.lastT (dropLt (s.lastT + 1 + s.penA) la) (dropLt (s.lastT + 1 + s.penB) lb) ≠ [] →
+      (nodeStep oa ob s).2 = true ∧ nodeT oa ob Ta Ba Tb Bb (nodeStep oa ob s).1
+        (pm2 s.lastT (dropLt (s.lastT + 1 + s.penA) la) (dropLt (s.lastT + 1 + s.penB) lb))) ∧
+    (pm2 s.lastT (dropLt (s.lastT + 1 + s.penA) la) (dropLt (s.lastT + 1 + s.penB) lb) = [] →
+      ((nodeStep oa ob s).2 = false ∧ NodeSt oa ob Ta Ba Tb Bb (nodeStep oa ob s).1 [] []) ∨
+      ((nodeStep oa ob s).2 = true ∧ nodeB oa ob Ta Ba Tb Bb (nodeStep oa ob s).1)) :=
+  nodeChoose_track ha hb
+    { s with a := (stepA oa s).1, b := (stepB ob s).1, aval := (stepA oa s).2, bval := (stepB ob s).2 }
+    ⟨hst.1, stepA_track ha hst.2.1, stepB_track hb hst.2.2⟩
+
+/-- a side in use can be read -/
+theorem nodeAt_some (ha : TrackM oa M Ta Ba ra) (hb : TrackM ob M Tb Bb rb) {s : Node α β}
+    {la lb : List Sample} (hst : NodeSt oa ob Ta Ba Tb Bb s la lb) (hsame : s.lastIsA = s.useA)
+    (hc : ((s.useA && s.aval) || (!s.useA && s.bval)) = true) : ∃ x, nodeAt oa ob s = some x := by
+  unfold nodeAt
+  rw [hsame]
+  cases hu : s.useA with
+  | true =>
+    rw [hu] at hc
+    simp only [Bool.true_and, Bool.not_true, Bool.false_and, Bool.or_false] at hc
+    simp only [if_true]
+    have hca := hst.2.1
+    rw [hc] at hca
+    rcases hca.valid with ⟨L, hT⟩ | hB
+    · have hne := ha.tNe _ _ hT
+      rw [ha.tAtS _ _ hT]
+      cases L with
+      | nil => exact absurd rfl hne
+      | cons x _ => exact ⟨x, rfl⟩
+    · obtain ⟨x, hx, _⟩ := ha.bAt _ hB
+      exact ⟨x, hx⟩
+  | false =>
+    rw [hu] at hc
+    simp only [Bool.false_and, Bool.not_false, Bool.true_and, Bool.false_or] at hc
+    simp only [Bool.false_eq_true, if_false]
+    have hcb := hst.2.2
+    rw [hc] at hcb
+    rcases hcb.valid with ⟨L, hT⟩ | hB
+    · have hne := hb.tNe _ _ hT
+      rw [hb.tAtS _ _ hT]
+      cases L with
+      | nil => exact absurd rfl hne
+      | cons x _ => exact ⟨x, rfl⟩
+    · obtain ⟨x, hx, _⟩ := hb.bAt _ hB
+      exact ⟨x, hx⟩
+
+/-- `Next`, in terms of what the sides follow -/
+theorem nodeNext_track (ha : TrackM oa M Ta Ba ra) (hb : TrackM ob M Tb Bb rb) (s : Node α β)
+    {la lb : List Sample} (hst : NodeSt oa ob Ta Ba Tb Bb s la lb) (hsame : s.lastIsA = s.useA) :
+    ((pm2 s.lastT (dropLt (s.lastT + 1 + s.penA) la) (dropLt (s.lastT + 1 + s.penB) lb) ≠ [] →
+      (nodeNext oa ob s).2 = true ∧ nodeT oa ob Ta Ba Tb Bb (nodeNext oa ob s).1
+        (pm2 s.lastT (dropLt (s.lastT + 1 + s.penA) la) (dropLt (s.lastT + 1 + s.penB) lb))) ∧
+    (pm2 s.lastT (dropLt (s.lastT + 1 + s.penA) la) (dropLt (s.lastT + 1 + s.penB) lb) = [] →
+      ((nodeNext oa ob s).2 = false ∧ NodeSt oa ob Ta Ba Tb Bb (nodeNext oa ob s).1 [] []) ∨
+      ((nodeNext oa ob s).2 = true ∧ nodeB oa ob Ta Ba Tb Bb (nodeNext oa ob s).1))) ∧
+    nodeRem ra rb (nodeNext oa ob s).1 = nodeRem ra rb (nodeStep oa ob s).1 := by
+  obtain ⟨t1, t2⟩ := nodeStep_track ha hb s hst
+  unfold nodeNext
+  by_cases hc : ((s.useA && s.aval) || (!s.useA && s.bval)) = true
+  · simp only [hc, if_true]
+    obtain ⟨x, hx⟩ := nodeAt_some ha hb hst hsame hc
+    simp only [hx]
+    unfold nodeFinish
+    simp only
+    by_cases hsw : ((nodeStep oa ob s).1.useA != s.useA) = true
+    · simp only [hsw, if_true]
+      obtain ⟨a1, a2, a3, a4⟩ := nodeAdjust_track ha hb x.v (nodeStep oa ob s).1
+      refine ⟨⟨fun hne => ⟨(t1 hne).1, a2 _ (t1 hne).2⟩, fun he => ?_⟩, a4⟩
+      rcases t2 he with ⟨h1, h2⟩ | ⟨h1, h2⟩
+      · exact Or.inl ⟨h1, a1 _ _ h2⟩
+      · exact Or.inr ⟨h1, a3 h2⟩
+    · simp only [hsw]
+      exact ⟨⟨t1, t2⟩, rfl⟩
+  · simp only [hc]
+    exact ⟨⟨t1, t2⟩, rfl⟩
 
 end node
 
